@@ -337,7 +337,7 @@ class Gen:
         self.opn += 1
         n = self.opn
         seg = f"op{n}"
-        method = r.choice(METHODS)
+        method = r.choice(self.prof.get("methods", METHODS))
         path = f"/{seg}/res"
         params, pexp = [], []
         npath = r.choice([0, 0, 1, 1, 2])
@@ -378,7 +378,9 @@ class Gen:
             self.features.add("opid_absent")
         tags_mode = r.random()
         tags: list[str] = []
-        if tags_mode < 0.7:
+        if self.prof.get("single_tag"):
+            tags = [TAGS[0]]
+        elif tags_mode < 0.7:
             tags = [r.choice(TAGS[: self.prof.get("ntags", 4)])]
         elif tags_mode < 0.8 and "multi_tag" in self.allow:
             tags = r.sample(TAGS[:4], 2)
@@ -420,6 +422,12 @@ class Gen:
                 op["requestBody"] = {"required": breq, "content": {"application/octet-stream": {
                     "schema": {"type": "string", "format": "binary"}}}}
                 body_exp = {"media": "application/octet-stream", "required": breq}
+            if kind == "json" and r.random() < self.prof.get("p_multi_media", 0.0):
+                extra = r.choice(["multipart/form-data", "application/x-www-form-urlencoded"])
+                op["requestBody"]["content"][extra] = {"schema": {"type": "object", "properties": {
+                    "file": {"type": "string", "format": "binary"}, "note": {"type": "string"}}}}
+                body_exp["also"] = extra
+                self.features.add("multi_request_media")
             self.features.add(f"body_{kind}")
             if not breq:
                 self.features.add("body_optional")
@@ -431,6 +439,31 @@ class Gen:
             responses["204"] = {"description": "no content"}
             rexp["204"] = {"content": None}
             self.features.add("resp_204")
+        elif r.random() < self.prof.get("p_stream", 0.0):
+            kind = r.choice(self.prof.get("stream_kinds", ["sse", "binary"]))
+            if kind == "sse":
+                objs = self.objects()
+                if objs and r.random() < 0.6:
+                    t = r.choice(objs)
+                    sch, e = ref(t), {"kind": "ref", "target": t}
+                else:
+                    sch, e = {"type": "string"}, {"kind": "string", "format": None}
+                responses[primary] = {"description": "events", "content": {"text/event-stream": {"schema": sch}}}
+                rexp[primary] = {"content": "sse", "schema": e}
+            elif kind == "binary":
+                responses[primary] = {"description": "bytes", "content": {"application/octet-stream": {
+                    "schema": {"type": "string", "format": "binary"}}}}
+                rexp[primary] = {"content": "binary"}
+            elif kind == "ndjson":
+                objs = self.objects()
+                t = r.choice(objs) if objs else None
+                sch = ref(t) if t else {"type": "object"}
+                responses[primary] = {"description": "records", "content": {"application/x-ndjson": {"schema": sch}}}
+                rexp[primary] = {"content": "ndjson", "schema": {"kind": "ref", "target": t} if t else {"kind": "object"}}
+            else:
+                responses[primary] = {"description": "text", "content": {"text/plain": {"schema": {"type": "string"}}}}
+                rexp[primary] = {"content": "text"}
+            self.features.add(f"stream_{kind}")
         else:
             sch, e = self.response_schema()
             responses[primary] = {"description": "ok", "content": {"application/json": {"schema": sch}}}
